@@ -155,7 +155,22 @@ def make_models(extra_numpy=None):
     M["networkx"] = ExtModule("networkx", {})
     M["scipy.linalg"] = ExtModule("scipy.linalg", {})
     M["scipy"] = ExtModule("scipy", {})
-    M["numpy.random"] = ExtModule("numpy.random", {})
+    from .ase_model import PCG64Model, RngModel
+
+    def mk_pcg(I, a, k):
+        seed = a[0] if a else k.get("seed")
+        return PCG64Model(I, seed)
+
+    def mk_gen(I, a, k):
+        bg = a[0] if a else k.get("bit_generator")
+        if not isinstance(bg, PCG64Model):
+            raise Unsupported("Generator over a non-PCG64 bit generator")
+        n = I.path.ghost.setdefault("n_generators", 0)
+        I.path.ghost["n_generators"] = n + 1
+        return RngModel(name=f"rng{n}" if n else "rng", bitgen=bg)
+
+    M["numpy.random"] = ExtModule("numpy.random", {"PCG64": Builtin("PCG64", mk_pcg), "Generator": Builtin("Generator", mk_gen)})
+    M["numpy"].attrs["random"] = M["numpy.random"]
     for n in ["ase.atoms", "ase.cell", "ase.constraints", "ase.neighborlist", "ase.io.jsonio", "ase.io.extxyz",
               "ase.io", "ase.md.md", "ase.optimize.optimize", "ase.calculators.calculator"]:
         M[n] = ExtModule(n, {})
